@@ -642,7 +642,12 @@ async fn run_accept(cfg: &Config, ch: &mut Chooser<Action>, ctx: &mut RunCtx) ->
                 c.garbage = true;
                 // fatal for the handshake iff the server still needs client bytes queued behind it
                 c.garbage_fatal = c.flights < 2 || !c.outbox.is_empty();
-                c.c2s.borrow_mut().push(&[0u8, 1, 2, 3, 4, 5, 6, 7, 8, 9, 10, 11, 12, 13, 14, 15]);
+                // At a record boundary the first byte is an invalid content type. Inside a record
+                // that was cut one byte short the first byte takes the place of that record's last
+                // byte: it is chosen to differ from it, otherwise the record would arrive intact
+                // once in 256 handshakes (ciphertext bytes are random).
+                let first = if c.out_tail > 0 && !c.outbox.is_empty() { c.outbox[0] ^ 0xFF } else { 0u8 };
+                c.c2s.borrow_mut().push(&[first, 1, 2, 3, 4, 5, 6, 7, 8, 9, 10, 11, 12, 13, 14, 15]);
                 ctx.bump("fault.garbage");
                 ev!(ctx, "client #{i} sends garbage");
             }
